@@ -75,8 +75,13 @@ def gen_event(rng, i, now, job_exe, scale_target, near=None):
     uid = "d%d@verif" % i
     lines = ["BEGIN:VEVENT", "UID:" + uid]
     # the job: either sleeps far beyond the (scaled) limit or ends well before it
+    beat = None
     if outlives:
         cmd = "%s o:3 s:6000 o:3" % job_exe
+        if rng.random() < 0.5:
+            # the job is more than one process: a helper it forks keeps a heartbeat file going
+            beat = "beat%d.txt" % i
+            cmd = "%s o:3 f:%s s:6000 o:3" % (job_exe, beat)
     else:
         cmd = "%s o:3 s:10 x:%d" % (job_exe, rng.choice([0, 0, 3]))
     lines.append("SUMMARY:" + cmd)
@@ -104,7 +109,7 @@ def gen_event(rng, i, now, job_exe, scale_target, near=None):
     if rng.random() < 0.4:
         lines.append("RRULE:FREQ=DAILY;COUNT=2")
     lines.append("END:VEVENT")
-    return {"uid": uid, "L": L, "start": start, "text": "\n".join(lines), "outlives": outlives, "spec": spec, "kind": kind}
+    return {"uid": uid, "L": L, "start": start, "text": "\n".join(lines), "outlives": outlives, "spec": spec, "kind": kind, "beat": beat}
 
 
 def pipeline(root, part, rng, tier):
@@ -213,6 +218,16 @@ def pipeline(root, part, rng, tier):
                     part.violation("killed-at-wrong-time/" + form, dict(wit, summary="%s: killed after %s s, the (scaled) limit is %.2f s" % (ev["spec"], real, target)))
                 else:
                     part.nontrivial.add("killed %s L=%d" % (form, L))
+                if ev.get("beat") and sig == "24":
+                    # the deadline is for the job, not for the one process echsx started
+                    bf = os.path.join(wd, ev["beat"])
+                    n1 = os.path.getsize(bf) if os.path.exists(bf) else 0
+                    time.sleep(0.3)
+                    n2 = os.path.getsize(bf) if os.path.exists(bf) else 0
+                    part.count("jobs_of_several_processes_killed")
+                    if n2 > n1:
+                        part.violation("killed-in-part/" + form, dict(wit, summary="%s: the job is reported killed by its deadline, but a process it forked is still running %.1f s later (heartbeat %d -> %d)"
+                                                                  % (ev["spec"], 0.3, n1, n2)))
             else:
                 part.count("jobs_ending_before_their_limit")
                 want = re.search(r"x:(\d+)", ev["text"])
